@@ -174,6 +174,15 @@ def frag(kind):
                           f"subroutine dup_d(a)\n!! {T(3)}\ndouble precision :: a\nend subroutine dup_d\nfunction dup_f(a)\n!! {T(4)}\ninteger :: a, dup_f\nend function dup_f\n"
                           f"end interface dup\ninterface operator(.dupop.)\n!! {T(5)}\nfunction op_a(a, b)\n!! {T(6)}\ninteger, intent(in) :: a, b\ninteger :: op_a\nend function op_a\n"
                           f"function op_b(a, b)\n!! {T(7)}\nreal, intent(in) :: a, b\nreal :: op_b\nend function op_b\nend interface\nend module ms\n")
+    elif kind == "inherited-generic":
+        # a type extending a type of the project inherits generic bindings (named, operator) it does not override
+        F["src/u.f90"] = ("module mu\ntype base_t\n!! " + T(1) + "\ninteger :: v\ncontains\nprocedure :: scaled_i\nprocedure :: plus\n"
+                          "generic :: scaled => scaled_i\n!! " + T(2) + "\ngeneric :: operator(+) => plus\n!! " + T(3) + "\nend type base_t\n"
+                          "type, extends(base_t) :: child_t\n!! " + T(4) + "\ninteger :: w\nend type child_t\n"
+                          "type, extends(child_t) :: grandchild_t\n!! " + T(5) + "\ncontains\nprocedure :: scaled_i => scaled_g\nend type grandchild_t\ncontains\n"
+                          "function scaled_i(a, f)\nclass(base_t), intent(in) :: a\ninteger, intent(in) :: f\ninteger :: scaled_i\nscaled_i = a%v * f\nend function scaled_i\n"
+                          "function scaled_g(a, f)\nclass(grandchild_t), intent(in) :: a\ninteger, intent(in) :: f\ninteger :: scaled_g\nscaled_g = f\nend function scaled_g\n"
+                          "function plus(a, b)\nclass(base_t), intent(in) :: a, b\ninteger :: plus\nplus = a%v + b%v\nend function plus\nend module mu\n")
     elif kind == "extra-files":
         # non-Fortran sources documented through extra_filetypes (see OPTIONS)
         F["src/t.f90"] = f"module mt\n!! {T(1)}\nend module mt\n"
@@ -202,7 +211,7 @@ OPTIONS = {"extra-files": dict(extra_filetypes=[dict(extension="yml", comment="#
 
 KINDS = ["modproc-a", "modproc-b", "modproc-case", "external", "type-ctor", "type-case", "module-named-dup", "submodule-named-dup",
          "module-case", "program-named-dup", "unnamed-program", "unnamed-blockdata", "operators", "bound-operators", "namelists",
-         "same-basename", "same-basename-case", "variables", "tilde-name", "interface-proc", "generic-bodies", "extra-files"]
+         "same-basename", "same-basename-case", "variables", "tilde-name", "interface-proc", "generic-bodies", "extra-files", "inherited-generic"]
 EXCLUSIVE = [{"program-named-dup", "unnamed-program"}, {"module-named-dup", "module-case"}]
 
 
@@ -308,6 +317,23 @@ def run_project(st: Stats, combo, order):
                 bad += 1
                 st.violation("page-at-url-documents-another-entity", stratum, dict(feats, coll=coll, name_lower=e.name.lower() == "dup"), inp,
                              dict(entity=f"{coll}:{e.name}", url=url, tracer=words[:1], found=bool(pg)), "the entity's tracer on the page at its URL")
+        # 3a. an item that lives on another entity's page: that page exists and carries the item's anchor
+        import urllib.parse as _up
+
+        seen_missing = set()
+        for (page, fr), items in owners.items():
+            pg = site.pages.get(page)
+            ids = set(pg.ids) if pg is not None else set()
+            if pg is None or not ({fr, _up.unquote(fr)} & ids):
+                cls = (page.split("/")[0], fr.split("-")[0])
+                if cls in seen_missing:
+                    continue
+                seen_missing.add(cls)
+                bad += 1
+                it = next(iter(items.values()))
+                st.violation("item-url-has-no-such-anchor", stratum, dict(feats, page_dir=cls[0], id_class=cls[1]), inp,
+                             dict(page=page, id=fr, item=f"{type(it).__name__}:{it.name}@{getattr(it.parent, 'name', None)}", page_exists=pg is not None),
+                             "the page at the item's URL contains the item's anchor")
         # 3b. links baked into the documentation text ("Read more" behind a summary) lead to the page of that very entity
         import posixpath
         import re as _re
